@@ -70,6 +70,7 @@ fn replay_engine(engine: &str, case: &Value) -> Option<Result<Result<(), String>
         "epoch-arith" => replay_case(&c18::C18, case),
         "price-protections" => replay_case(&c13::Protections, case),
         "fault-walk" => replay_case(&c20::FaultWalk, case),
+        "frozen-refund-twins" => replay_case(&c20::FrozenRefund, case),
         "single-asset-twins" => replay_case(&c14::Twin, case),
         "single-asset-fault-walk" => replay_case(&c14::Faults, case),
         "feature-switch-twins" => replay_case(&c17::Switches, case),
